@@ -2117,6 +2117,18 @@ func (r *pfRun) checkInstr(in ssa.Instruction, st *pfState) {
 		if !r.valueNonNil(x.Map, st) {
 			if _, isParam := an.Strip(x.Map).(*ssa.Parameter); isParam || an.IsNilConst(an.Strip(x.Map)) {
 				e.site(r.fn, in, "nilderef", "map "+e.key(x.Map), false, "assignment to an entry of a map that may be nil", r.ctx)
+			} else if ld, isLd := x.Map.(*ssa.UnOp); isLd && ld.Op == token.MUL {
+				// a map kept in a field of an exported struct type: the zero value of the type (`&gldap.Mux{}`, which
+				// NewServer itself installs) has a nil map, and assigning to an entry of a nil map panics
+				if fa, isFA := ld.X.(*ssa.FieldAddr); isFA {
+					if nt := an.StructOf(fa.X.Type()); nt != nil && nt.Obj().Exported() && nt.Obj().Pkg() != nil && strings.HasPrefix(nt.Obj().Pkg().Path(), an.ModPath) {
+						e.site(r.fn, in, "nilderef", "map field "+e.key(x.Map), false, "assignment to an entry of the map field "+nt.Obj().Name()+"."+an.FieldAddrName(fa)+", which is nil in a zero-value "+nt.Obj().Name()+" (no dominating nil test or assignment)", r.ctx)
+					}
+				}
+			}
+		} else if ld, isLd := x.Map.(*ssa.UnOp); isLd && ld.Op == token.MUL {
+			if _, isFA := ld.X.(*ssa.FieldAddr); isFA {
+				e.site(r.fn, in, "nilderef", "map field "+e.key(x.Map), true, "non-nil on every path reaching the assignment", r.ctx)
 			}
 		}
 	case ssa.CallInstruction:
